@@ -5,7 +5,7 @@ P=$1; M=$2; shift 2
 src=${WT:-/tmp/wt}/$P/_out/$M
 id=$P$M
 # second-round changes (WT=/tmp/wt2) are kept as <P>C and <P>D
-if [ "${WT:-/tmp/wt}" = "/tmp/wt2" ]; then case $M in A) id=${P}C;; B) id=${P}D;; esac; fi
+if [ "${WT:-/tmp/wt}" != "/tmp/wt" ]; then case $M in A) id=${P}C;; B) id=${P}D;; esac; fi
 [ -f "$src/patch.diff" ] || { echo "$id: no patch"; exit 1; }
 v=$(/verif/tools/verifymut.sh $id $src)
 echo "$v"
